@@ -1,8 +1,150 @@
 import ApolloModel.Model.Proto
-open Apollo Apollo.Proto
+import ApolloModel.Model.SchemaBuild
+open Apollo Apollo.Proto Apollo.SchemaBuild
 namespace Driver
 
+/-
+streams of property C13 (written by harness/src/p13.rs)
+  c13.schema  <flags: two chars 0/1 = adopt_orphan_extensions, ignore_builtin_redefinitions>  <sources>
+  c13.exec    <sources>
+sources: `|` between sources, `;` between definitions, `,` between the fields of a definition,
+`+` between list items, `:` between the fields of an item.
+-/
+
+def kindOfChar : Char → Option Kind
+  | 's' => some .scalar | 'o' => some .object | 'i' => some .interface
+  | 'u' => some .union | 'e' => some .enum | 'n' => some .inputObject
+  | _ => none
+
+def kindChar : Kind → String
+  | .scalar => "s" | .object => "o" | .interface => "i" | .union => "u" | .enum => "e" | .inputObject => "n"
+
+def tagOf (s : String) : Option DefTag :=
+  match s.toList with
+  | ['S'] => some .schemaDef
+  | ['X'] => some .schemaExt
+  | ['D'] => some .directiveDef
+  | ['O'] => some .operation
+  | ['F'] => some .fragment
+  | ['T', c] => (kindOfChar c).map .typeDef
+  | ['E', c] => (kindOfChar c).map .typeExt
+  | _ => none
+
+def splitNE (s : String) (sep : String) : List String := (s.splitOn sep).filter (· ≠ "")
+
+def itemOf (s : String) : Option Item :=
+  match s.splitOn ":" with
+  | [n, p, e, t] => do
+    let p ← p.toNat?
+    let e ← e.toNat?
+    pure ⟨n, p, e, t⟩
+  | _ => none
+
+def itemsOf (s : String) : Option (List Item) := (splitNE s "+").mapM itemOf
+
+def defOf (s : String) : Option Def :=
+  match s.splitOn "," with
+  | [t, n, p, np, ds, is, ms] => do
+    let t ← tagOf t
+    let p ← p.toNat?
+    let np ← np.toNat?
+    let ds ← itemsOf ds
+    let is ← itemsOf is
+    let ms ← itemsOf ms
+    pure ⟨t, n, p, np, ds, is, ms⟩
+  | _ => none
+
+def sourcesOf (s : String) : Option (List (List Def)) :=
+  (s.splitOn "|").mapM (fun src => (splitNE src ";").mapM defOf)
+
+def posStr : Option Pos → String
+  | none => "-"
+  | some p => toString p
+
+def originStr : Option Pos → String
+  | none => "d"
+  | some p => toString p
+
+def compStr (c : Comp) : String :=
+  (if c.target.isEmpty then c.name else c.name ++ "=" ++ c.target) ++ "@" ++ posStr c.pos ++ "^" ++ originStr c.origin
+
+def compsStr (cs : List Comp) : String := ",".intercalate (cs.map compStr)
+
+def bodyEmpty (b : Body) : Bool := b.directives.isEmpty && b.interfaces.isEmpty && b.members.isEmpty
+
+def typeStr (t : TypeEntry) : String :=
+  t.name ++ "/" ++ kindChar t.kind ++ "/" ++ posStr t.pos ++ "{d:" ++ compsStr t.body.directives ++ "}{i:"
+    ++ compsStr t.body.interfaces ++ "}{m:" ++ compsStr t.body.members ++ "}"
+
+def rootStr (sd : SchemaDefn) (op : String) : String :=
+  match sd.body.members.find? (fun c => c.name == op) with
+  | some c => c.target ++ "@" ++ posStr c.pos ++ "^" ++ originStr c.origin
+  | none => "-"
+
+def diagStr : Diag → String
+  | .executableDefinition f => if f then "exec1" else "exec0"
+  | .schemaDefinitionCollision => "schemacoll"
+  | .directiveDefinitionCollision n => "dircoll(" ++ n ++ ")"
+  | .typeDefinitionCollision n => "typecoll(" ++ n ++ ")"
+  | .builtInScalarTypeRedefinition => "builtinscalar"
+  | .orphanSchemaExtension => "orphanschema"
+  | .orphanTypeExtension n => "orphantype(" ++ n ++ ")"
+  | .typeExtensionKindMismatch n e d => "mismatch(" ++ n ++ "," ++ kindChar e ++ "," ++ kindChar d ++ ")"
+  | .duplicateRootOperation op => "duproot(" ++ op ++ ")"
+  | .duplicateInterface k t i => "dupiface(" ++ kindChar k ++ "," ++ t ++ "," ++ i ++ ")"
+  | .memberCollision k t m => "dupmember(" ++ kindChar k ++ "," ++ t ++ "," ++ m ++ ")"
+
+def builderStr (r : Builder) : String :=
+  let ts := r.types.filter (fun t => !(t.builtin && bodyEmpty t.body))
+  "T[" ++ " ".intercalate (ts.map typeStr) ++ "]S[" ++ posStr r.schemaDef.pos ++ "{d:" ++ compsStr r.schemaDef.body.directives
+    ++ "}{q:" ++ rootStr r.schemaDef "query" ++ "}{m:" ++ rootStr r.schemaDef "mutation" ++ "}{s:"
+    ++ rootStr r.schemaDef "subscription" ++ "}]D["
+    ++ ",".intercalate ((r.directiveDefs.filter (fun d => !d.builtin)).map (fun d => d.name ++ "@" ++ posStr d.pos))
+    ++ "]E[" ++ ",".intercalate (r.errors.map (fun e => toString e.pos ++ ":" ++ diagStr e.diag)) ++ "]"
+
+def xdefOf (s : String) : Option XDef :=
+  match s.splitOn "," with
+  | [t, n, p, np, cp, ro, co, inner] => do
+    let t ← (match t with
+      | "O" => some DefTag.operation
+      | "F" => some DefTag.fragment
+      | "T" => some DefTag.directiveDef
+      | _ => none)
+    let p ← p.toNat?
+    let np ← np.toNat?
+    let cp ← cp.toNat?
+    let inner ← (splitNE inner "+").mapM String.toNat?
+    pure ⟨t, if n == "-" then none else some n, p, np, cp, ro == "1", co == "1", inner⟩
+  | _ => none
+
+def xdiagStr : XDiag → String
+  | .ambiguousAnonymousOperation => "ambiguous"
+  | .undefinedRootOperation => "undefroot"
+  | .operationNameCollision n => "opcoll(" ++ n ++ ")"
+  | .fragmentNameCollision n => "fragcoll(" ++ n ++ ")"
+  | .undefinedTypeCondition n => "undefcond(" ++ n ++ ")"
+  | .typeSystemDefinition => "typesys"
+  | .undefinedField => "undeffield"
+
+def xbuilderStr (r : XBuilder) : String :=
+  "A[" ++ posStr r.anonymous ++ "]N[" ++ ",".intercalate (r.named.map (fun p => p.1 ++ "@" ++ toString p.2))
+    ++ "]F[" ++ ",".intercalate (r.fragments.map (fun p => p.1 ++ "@" ++ toString p.2))
+    ++ "]E[" ++ ",".intercalate (r.errors.map (fun e => toString e.pos ++ ":" ++ xdiagStr e.diag)) ++ "]"
+
 /-- streams of property C13 are named `c13.<name>` -/
-def c13 (_stream : String) (_fs : List String) : String := "unknown-stream"
+def c13 (stream : String) (fs : List String) : String :=
+  match stream, fs with
+  | "c13.schema", [flags, srcs] =>
+    let flags := decodeField flags
+    let srcs := String.ofList (decodeField srcs)
+    match flags, sourcesOf srcs with
+    | [a, i], some srcs => builderStr (build (Builder.new (a == '1') (i == '1')) srcs)
+    | _, _ => "bad-case"
+  | "c13.exec", [srcs] =>
+    let srcs := String.ofList (decodeField srcs)
+    match (srcs.splitOn "|").mapM (fun src => (splitNE src ";").mapM xdefOf) with
+    | some srcs => xbuilderStr (xbuild srcs)
+    | none => "bad-case"
+  | _, _ => "unknown-stream"
 
 end Driver
